@@ -429,6 +429,7 @@ def run_gated(rng, out):
 # ------------------------------------------------------------------------------------------------
 LITERALS = ["", "x", "state ", " = ", "{{", "}}", "{{}}", "{{idle}}", "100%", "a}}b", "{{0}}", "\\n", "'q'", "{{:d}}"]
 FIELDS = ["{}", "{:d}", "{:x}", "{:>4}", "{:+d}", "{:#b}", "{:03}", "{:_b}", "{0}", "{:<3d}"]
+NESTED = ["{:{}d}", "{:>{}}", "{:0{}x}", "{0:{1}d}", "{1:{0}x}", "{:<{}b}"]
 ENV4 = [(4, False), (4, True), (1, False), (8, False)]
 
 
@@ -437,12 +438,18 @@ def gen_template(rng, nfields=None):
     n = rng.choice([0, 0, 1, 1, 2, 3]) if nfields is None else nfields
     tmpl, args = rng.choice(LITERALS), []
     for k in range(n):
-        f = rng.choice(FIELDS)
-        if f == "{0}":
-            if n != 1:
-                f = "{}"
+        f = rng.choice(FIELDS + NESTED)
+        if f in ("{0}", "{0:{1}d}", "{1:{0}x}") and n != 1:
+            f = "{}"
         tmpl += f + rng.choice(LITERALS)
-        args.append(X.gen_expr(rng, ENV4, rng.choice([0, 0, 1, 2])))
+        value = X.gen_expr(rng, ENV4, rng.choice([0, 0, 1, 2]))
+        if f in NESTED:
+            # a replacement field inside the format specification (a build-time integer: the field width);
+            # automatic numbering counts the outer field first, as str.format does
+            width = ["pyint", rng.choice([1, 2, 3, 6, 9])]
+            args += [width, value] if f == "{1:{0}x}" else [value, width]
+        else:
+            args.append(value)
     return tmpl, args
 
 
